@@ -186,8 +186,8 @@ def accumulate_only(repo, res):
                 # A must not be read on the right-hand side
                 if len(c.args) > 1 and _root_kind(sl, c.args[1], symtab) == "A":
                     res.fail(f"{f.key}:{nm}:reads-A", f"{f.key} reads the element tensor on the right-hand side of an assignment", m.line(c))
-    if n_sites < 7:
-        raise AnalysisError(f"only {n_sites} assignment construction sites found (7 confirmed by hand)")
+    if n_sites < 3:  # integral blocks, expression blocks, coefficient / coordinate definitions: one site each at least
+        raise AnalysisError(f"only {n_sites} assignment construction sites found (at least 3 expected: integral blocks, expression blocks, definitions)")
     # any other use of element_tensor: only as AssignAdd target or in `output=[A]` section metadata
     for m in repo.modules.values():
         if not m.name.startswith(GEN_PREFIX):
@@ -421,46 +421,63 @@ def accessor_only(repo, res):
                      "jump(k) would vanish", am.line(f.node))
             break
     # the definition of coefficient values: GEN-DEFS (interpreted on samples)
-    # NULL-pointer guard: entity index of cells is the literal 0, before any subscript of entity_local_index
+    # NULL-pointer guards, by interpretation (objects built by their own constructors): the caller passes NULL for entity_local_index in
+    # cell kernels and for quadrature_permutation unless a table is permuted - the access expressions must not mention those arrays then
+    from .genkernel import _world as _gk_world
+
+    def mentions(x, name):
+        if isinstance(x, _N2):
+            if x.cls == "Symbol" and x.f.get("name") == name:
+                return True
+            return any(mentions(v, name) for v in x.f.values())
+        if isinstance(x, (list, tuple)):
+            return any(mentions(v, name) for v in x)
+        return False
+
     ef = sm.func("FFCXBackendSymbols.entity")
-    cfg = CFG(ef.node)
     key = f"{ef.key}:cell-early-return"
     res.ob(key)
-    guard = None
-    for tid, st in cfg.if_stmt.items():
-        if ast.unparse(st.test).replace(" ", "") in ("entity_type=='cell'", "'cell'==entity_type"):
-            guard = tid
-    subs = [n for n in cfg.nodes if n.ast is not None and n.kind == "stmt" and "entity_local_index" in ast.unparse(n.ast)]
-    if guard is None:
-        res.fail(key, "symbols.entity has no `entity_type == 'cell'` case: cell kernels would dereference entity_local_index (NULL)", sm.line(ef.node))
-    else:
-        body = cfg.if_true[guard]
-        for b in body:
-            reach = cfg.reachable(b, kinds=("n",))
-            if any(s.id in reach for s in subs):
-                res.fail(key, "the cell branch of symbols.entity reaches a subscript of entity_local_index", sm.line(ef.node))
-            rets = [cfg.nodes[r].ast for r in cfg.return_nodes if r in reach]
-            if not rets or not all("LiteralInt(0)" in ast.unparse(r) for r in rets):
-                res.fail(key, "the cell branch of symbols.entity does not return the literal 0", sm.line(ef.node))
-        for s in subs:
-            if not cfg.dominates(guard, s.id):
-                res.fail(key, "entity_local_index is subscripted on a path that did not test for cell integrals first", sm.line(s.ast))
-    # permutation pointer only under is_permuted
-    for modname, q in ((SYMBOLS, "FFCXBackendSymbols.element_table"), ("ffcx.codegeneration.access", "FFCXBackendAccess.table_access")):
-        mm_ = repo.mod(modname)
-        g = mm_.func(q)
-        cfg = CFG(g.node)
+    for restr in (None, "+", "-"):
+        itw = _gk_world(repo)
+        try:
+            symb = itw.overrides["FFCXBackendSymbols"].fn({}, {}, {})
+            ent = itw.call_f(ef, [symb, "cell", restr])
+        except _R2 as e:
+            res.fail(key, f"symbols.entity('cell', {restr!r}) raises ({e.what})", sm.line(ef.node))
+            break
+        if not (isinstance(ent, _N2) and ent.cls == "LiteralInt" and ent.f.get("value") == 0) or mentions(ent, "entity_local_index"):
+            res.fail(key, f"symbols.entity('cell', {restr!r}) is {ent!r}, not the literal 0: cell kernels would dereference entity_local_index (NULL for cell integrals)",
+                     sm.line(ef.node))
+            break
+    am_ = repo.mod("ffcx.codegeneration.access")
+    for mm_, g in ((sm, sm.func("FFCXBackendSymbols.element_table")), (am_, am_.func("FFCXBackendAccess.table_access"))):
         key = f"{g.key}:perm-under-is_permuted"
         res.ob(key)
-        guard = [tid for tid, st in cfg.if_stmt.items() if ast.unparse(st.test).replace(" ", "").endswith(".is_permuted")]
-        subs = [n for n in cfg.nodes if n.ast is not None and n.kind == "stmt" and re.search(r"quadrature_permutation\[", ast.unparse(n.ast))]
-        if not guard:
-            res.fail(key, f"{q} reads quadrature_permutation without testing tabledata.is_permuted", mm_.line(g.node))
-            continue
-        entries = set().union(*[cfg.if_true[t] for t in guard])
-        for s in subs:
-            if s.id in cfg.reachable(cfg.entry.id, blocked=entries):
-                res.fail(key, f"{q}: quadrature_permutation is read for tables that are not permuted (NULL for exterior facets and cells)", mm_.line(s.ast))
+        for restr in (None, "+", "-"):
+            for etype in ("facet", "cell"):
+                itw = _gk_world(repo)
+                try:
+                    symb = itw.overrides["FFCXBackendSymbols"].fn({}, {}, {})
+                    acc = itw.overrides["FFCXBackendAccess"].fn(etype, "exterior_facet" if etype == "facet" else "cell", symb, {})
+                    td_ = _N2("UniqueTableReferenceT", name="FE0", is_uniform=False, is_piecewise=False, is_permuted=False, tensor_factors=None, has_tensor_factorisation=False,
+                              ttype="varying", offset=0, block_size=1, values=None, tensor_permutation=None)
+                    symb.f["element_tables"]["FE0"] = itw.construct("Symbol", ["FE0", "DataType.REAL"], {})
+                    if g.qualname.startswith("FFCXBackendAccess."):
+                        iqx = itw.construct("MultiIndex", [[itw.construct("Symbol", ["iq", "DataType.INT"], {})], [3]], {})
+                        icx = itw.construct("MultiIndex", [[itw.construct("Symbol", ["ic", "DataType.INT"], {})], [2]], {})
+                        out_ = itw.call_f(g, [acc, td_, etype, restr, iqx, icx])
+                    else:
+                        out_ = itw.call_f(g, [symb, td_, etype, restr])
+                except _R2 as e:
+                    res.fail(key, f"{g.qualname} raises ({e.what}) for a table without permutation axis", mm_.line(g.node))
+                    break
+                if mentions(out_, "quadrature_permutation"):
+                    res.fail(key, f"{g.qualname}: quadrature_permutation is read for a table that is not permuted ({etype} entity, restriction {restr!r}); the caller "
+                             "passes NULL for exterior facets and cells", mm_.line(g.node))
+                    break
+            else:
+                continue
+            break
 
 
 @rule(
@@ -1043,12 +1060,13 @@ def geom_table_maps(repo, res):
     _known_cache = {}
 
     def is_known(name):
-        """write_table, interpreted with the per-table writers stubbed, accepts the name (whatever the shape of its dispatch)."""
+        """write_table, interpreted together with the per-table writers, accepts the name (whatever the shape of its dispatch)."""
         if name not in _known_cache:
-            it = _IG(repo, _lcg(repo), primary="ffcx.codegeneration.geometry")
-            for q_, fn_ in gm.funcs.items():
-                if "." not in q_ and q_ != "write_table":
-                    it.overrides[q_] = _PCG(lambda *a, _q=q_, **k: f"<table written by {_q}>")
+            from ..npmodel import install_arrays as _ia
+            from .geomaccess import _install_basix
+
+            it = _ia(_IG(repo, _lcg(repo), primary="ffcx.codegeneration.geometry"))
+            _install_basix(it)   # the writers themselves are interpreted, over basix library facts and stand-in arrays
             try:
                 out = it.call_f(wt, [name, "tetrahedron"])
                 _known_cache[name] = out is not None
@@ -1106,18 +1124,32 @@ def terminal_dispatch(repo, res):
     am = repo.mod("ffcx.codegeneration.access")
     dm = repo.mod("ffcx.codegeneration.definitions")
 
+    from ..absint import Raised as _RaisedTD, _Bound as _BoundTD, _Cls as _ClsTD
+    from .genkernel import _world as _gk_world
+
+    _itw = _gk_world(repo)
+    try:
+        _symb = _itw.overrides["FFCXBackendSymbols"].fn({}, {}, {})
+        _acc = _itw.overrides["FFCXBackendAccess"].fn("cell", "cell", _symb, {})
+        _dfn = _itw.overrides["FFCXBackendDefinitions"].fn("cell", "cell", _acc, {})
+    except _RaisedTD as e:
+        raise AnalysisError(f"TERMINAL-DISPATCH: the backend objects cannot be constructed ({e.what})")
+    _objs = {"FFCXBackendAccess": _acc, "FFCXBackendDefinitions": _dfn}
+
     def table(mod, cls, attr):
+        """the dispatch table of the object built by its own constructor: {UFL class name: (handler method name, location)}"""
         f = mod.func(f"{cls}.__init__")
         res.functions.add(f.key)
-        for n in ast.walk(f.node):
-            if isinstance(n, ast.Assign) and isinstance(n.targets[0], ast.Attribute) and n.targets[0].attr == attr and isinstance(n.value, ast.Dict):
-                out = {}
-                for k, v in zip(n.value.keys, n.value.values):
-                    if not (isinstance(v, ast.Attribute) and isinstance(v.value, ast.Name) and v.value.id == "self"):
-                        raise AnalysisError(f"{cls}.{attr}: value `{ast.unparse(v)}` is not a bound method")
-                    out[ast.unparse(k).split(".")[-1]] = (v.attr, n)
-                return f, out
-        raise AnalysisError(f"{cls}.{attr} not found")
+        d = _objs[cls].f.get(attr)
+        if not isinstance(d, dict) or not d:
+            raise AnalysisError(f"{cls}.{attr} not found")
+        out = {}
+        for k, v in d.items():
+            kn = k.name if isinstance(k, _ClsTD) else str(k).split(".")[-1]
+            if not isinstance(v, _BoundTD) or v.obj is not _objs[cls]:
+                raise AnalysisError(f"{cls}.{attr}[{kn}] is not a bound method of the object")
+            out[kn] = (v.func.qualname.split(".")[-1], f.node)
+        return f, out
 
     fa, acc = table(am, "FFCXBackendAccess", "call_lookup")
     special = {"CellOrientation": {"_pass"}, "ReferenceNormal": {"reference_normal"}}
